@@ -38,8 +38,8 @@ ASSUMPTIONS = [
     "append(image, offset) documents the stored time of the appended slice as its own time plus offset",
 ]
 FLOORS = {
-    "quick": {"block_data": 2500, "placement": 2500, "time_stamps": 1000, "physical_equals_voxel_box": 300, "stack_roundtrip": 300},
-    "thorough": {"block_data": 30000, "placement": 30000, "time_stamps": 12000, "physical_equals_voxel_box": 3000, "stack_roundtrip": 3000},
+    "quick": {"block_data": 2500, "placement": 2500, "time_stamps": 1000, "physical_equals_voxel_box": 300, "stack_roundtrip": 300, "sibling_extractions": 300},
+    "thorough": {"block_data": 30000, "placement": 30000, "time_stamps": 12000, "physical_equals_voxel_box": 3000, "stack_roundtrip": 3000, "sibling_extractions": 3000},
 }
 
 
@@ -243,6 +243,7 @@ def run_shard(spec, R):
                 choices += ["time_slice", "time_interval"]
             op = str(rng.choice(choices))
             case["known_key"] = None
+            par_p, par_extent = p, list(extent)
             if op == "sub_slices":
                 rs = [gen_range(rng, e) for e in extent]
                 sl = tuple(slice(a, b) for a, b, _ in rs)
@@ -310,6 +311,24 @@ def run_shard(spec, R):
             judge_child(R, child, p, extent, case, cls)
             if len(R.violations) + sum(R._vcount.values()) != nviol:
                 break  # a wrong child would only pollute the judgement of later steps
+            # a sibling: same extent, another place in the same parent; both are judged, the first one once more
+            # afterwards (extracted images of equal size must not share anything that depends on their place)
+            if op.startswith("sub_") and all(e > 0 for e in extent) and step % 2 == 0:
+                rel = [p.offset[d] - par_p.offset[d] for d in range(dim)]
+                alt = [[s for s in range(0, par_extent[d] - extent[d] + 1) if s != rel[d]] for d in range(dim)]
+                if any(alt):
+                    sib_rel = [int(rng.choice(alt[d])) if alt[d] and rng.random() < 0.8 else rel[d] for d in range(dim)]
+                    if sib_rel == rel:
+                        d0 = [d for d in range(dim) if alt[d]][0]
+                        sib_rel[d0] = int(alt[d0][0])
+                    sib_sl = tuple(slice(sib_rel[d], sib_rel[d] + extent[d]) for d in range(dim))
+                    ok3, sib = R.guarded("sub_slices", lambda: cur.subregion(sib_sl))
+                    if ok3:
+                        sp = Prov(root_arr, meta, [par_p.offset[d] + sib_rel[d] for d in range(dim)], p.times, p.series)
+                        scase = {**case, "sibling_of_last_step": [[s.start, s.stop] for s in sib_sl]}
+                        judge_child(R, sib, sp, extent, scase, cls)
+                        judge_child(R, child, p, extent, {**case, "rejudged_after_sibling": True}, cls)
+                        R.count("sibling_extractions")
             # physical box == voxel box of its converted corners
             if op == "sub_coords":
                 vox_box = cur.coordinatesystem.voxel(ca)
